@@ -53,3 +53,24 @@ Example C02_nonvacuous :
   | Err _ => false
   end = true.
 Proof. vm_compute. reflexivity. Qed.
+
+(* Part 4: for descriptions -- unique router names are no longer a hypothesis: every graph that build
+   accepts has pairwise distinct node names (BuildProofs.build_nodup), hence every compiled network has
+   pairwise distinct router names.  What remains as a hypothesis is only that shortest paths to an
+   interface run through routers (true when every endpoint is attached to one router; an endpoint
+   attached to two routers could be a transit node of a shortest path, which the hardware cannot do). *)
+From FV Require Import BuildProofs IdProofs.
+Theorem C02_model_built :
+  forall (d : desc) (g : graph) (c : compiled) (ri : rinfo) (t : cni) (id : Z),
+    build d = Ok g -> compile d g = Ok c ->
+    d_algo (c_desc c) = ID -> gen_routing_info sp_reference c = Ok ri -> In t (c_nis c) -> id_num (cn_id t) = Ok id ->
+    (forall u p, is_router c u -> sp_reference (c_graph c) u (cn_name t) = Some p ->
+                 forall x, In x (removelast p) -> is_router c x) ->
+    forall r p k, In r (c_rts c) -> sp_reference (c_graph c) (cr_name r) (cn_name t) = Some p -> length p = S k ->
+      let v := cwalk k c ri (cn_name t) id (cr_name r) in
+      length v = S k /\ last v (cr_name r) = cn_name t /\ NoDup v.
+Proof.
+  intros d g c ri t id Hb Hc Ha Hr Ht Hid Htr. apply (id_tables_deliver_ref c ri t id Ha Hr Ht Hid); [|exact Htr].
+  exact (built_router_names_nodup d g c Hb Hc).
+Qed.
+Print Assumptions C02_model_built.
